@@ -645,6 +645,19 @@ pub fn s_cw(thorough: bool) -> Space {
                 }
             }
             push(&mut cases, v, e, &d);
+            // pad-block: one later block is exactly the pad alternation (EC 11 .. or 11 EC ..), every other block holds
+            // its own counter pattern (a shortcut that takes "padding from here on" for granted meets real data after it)
+            for b in 1..nb.min(cap_b + 1) {
+                for phase in 0..2usize {
+                    let mut d: Vec<u8> = vec![0u8; dc];
+                    for (bb, &(off, l)) in spans.iter().enumerate() {
+                        for i in 0..l {
+                            d[off + i] = if bb == b { [0xECu8, 0x11][(i + phase) % 2] } else { ((i * 29 + bb * 53 + 7) % 251 + 1) as u8 };
+                        }
+                    }
+                    push(&mut cases, v, e, &d);
+                }
+            }
             // zero-then
             for b in 1..nb.min(cap_b + 1) {
                 let mut d: Vec<u8> = (0..dc).map(|i| ((i * 31 + 3) % 255 + 1) as u8).collect();
@@ -658,7 +671,7 @@ pub fn s_cw(thorough: bool) -> Space {
     }
     Space {
         name: "S_cw".into(),
-        describe: format!("payloads crafted at codeword/block level for {} (version, level) pairs: one codeword 0x01/0x02/0x80/0xFF at the start, second and last position of a later block; pad-pattern blocks with one middle codeword changed; equal adjacent blocks (and with changed last codewords); a zero block after non-zero blocks", if thorough { "all 160" } else { "the (version, level) pairs of v <= 12, v = 2 mod 3 and v = 40" }),
+        describe: format!("payloads crafted at codeword/block level for {} (version, level) pairs: one codeword 0x01/0x02/0x80/0xFF at the start, second and last position of a later block; pad-pattern blocks with one middle codeword changed; one later block that is exactly the pad alternation among blocks of real data; equal adjacent blocks (and with changed last codewords); a zero block after non-zero blocks", if thorough { "all 160" } else { "the (version, level) pairs of v <= 12, v = 2 mod 3 and v = 40" }),
         cases,
         exhaustive: true,
     }
